@@ -113,7 +113,7 @@ class RngRecorder:
                 res = o["exit"](self_, exc_type, exc_value, tb)
             finally:
                 rec.in_ctx -= 1
-            rec.ev("exit" if exc_type is None else "exit_exc")
+                rec.ev("exit" if exc_type is None else "exit_exc")       # logged on the error path as well
             return res
 
         def mk_draw(name):
